@@ -39,10 +39,26 @@ def do_op(S, x, op, partner=None):
     if name == "tensordot_self":
         # contract with the conjugate over the listed axes in fused mode (fuses internally)
         return sr.tensordot(x, x.conj(), axes=(args[0], args[0]), mode="fused", preserve_array=True)
+    if name == "readonly":
+        # read-only observations (no caches involved, but they must not leave anything behind in the operand either): the values returned,
+        # and the operand as seen afterwards
+        out = []
+        for f in args[0]:
+            out.append(("scalar", getattr(x, f)()))
+        out.append(("array", x.copy()))
+        return out
     raise ValueError(name)
 
 
 def same(S, name, r, ref):
+    if isinstance(ref, list):
+        S.require(name + ":kinds", isinstance(r, list) and len(r) == len(ref), "different kind of result")
+        for k, ((kr, vr), (kf, vf)) in enumerate(zip(r, ref)):
+            if kf == "scalar":
+                S.equal(f"{name}:value{k}", vr, vf)
+            else:
+                same(S, f"{name}:operand-after", vr, vf)
+        return
     S.require(name + ":rank", r.ndim == ref.ndim, f"rank {r.ndim} vs {ref.ndim}")
     S.require(name + ":charge", r.charge == ref.charge, f"charge {r.charge!r} vs {ref.charge!r}")
     S.require(name + ":indices", [orc.index_sig(i) for i in r.indices] == [orc.index_sig(i) for i in ref.indices],
@@ -73,6 +89,9 @@ def body_history(S, spec):
                 n = len(arrays)
                 # every ordered pair with the base structure, plus all ordered pairs among the first four variants
                 pairs = [(i, j) for i, j in itertools.permutations(range(n), 2) if i == 0 or j == 0 or (i < 4 and j < 4)]
+                if n >= 3 and spec.get("tail_pair", True):
+                    # the last two variants are the base with its first / its last stored sector missing: same number of stored sectors, one differs
+                    pairs += [(n - 2, n - 1), (n - 1, n - 2)]
                 for i, j in pairs:
                     set_cache(size)
                     seq = [i, j, i, j] if size in (1, 2) else [i, j]
@@ -158,6 +177,16 @@ def build_family(tier, seed):
                 ixs = tuple(ixs)
                 q = fam.possible_charges(sym, ixs)[0]
                 bases.append((ixs, q, fermionic, generic))
+        if sym == "U1":
+            # charge labels -1 and -2 (their builtin hashes coincide: a key built with hash() instead of the library's hasher cannot tell
+            # sector lists apart that differ by -1 <-> -2)
+            neg = ((-2, 1), (-1, 2))
+            for nd in (2, 3):
+                for ixs in fam.index_structs(sym, nd, [neg]):
+                    ixs = tuple(ixs)
+                    qs = [q for q in fam.possible_charges(sym, ixs) if len(fam.sectors_of(sym, ixs, q)) >= 2]
+                    if qs:
+                        bases.append((ixs, qs[0], fermionic, generic))
         for base in bases:
             vs = variants_of(sym, base, rng)
             nd = len(base[0])
@@ -167,6 +196,7 @@ def build_family(tier, seed):
                 oplist += [("fuse", (((0, 2), (1,)), mode)), ("fuse", (((2, 1, 0),), mode)), ("tensordot_self", ((0, 1),)), ("tensordot_self", ((2, 0),))]
             else:
                 oplist += [("tensordot_self", ((0,),)), ("tensordot_self", ((1, 0),))]
+                oplist += [("readonly", (("trace", "norm"),))]
             if not fermionic:
                 oplist.append(("fuse", (((0, 1),), "concat")))
             # keep the number of ordered pairs moderate: the base with each variant, plus all pairs for a few bases
